@@ -147,6 +147,8 @@ func gvbPool(depth int) []*gvbVal {
 	add("binary", "empty", 1, func() any { return gvbBin(0) })
 	add("binary", "1 byte", 0, func() any { return gvbBin(1) })
 	add("binary", "300 bytes", 0, func() any { return gvbBin(300) })
+	add("binary-nil", "Binary(nil)", 1, func() any { return Binary(nil) })
+	add("bytes-plain", "[]byte(\"plain\")", 1, func() any { return []byte("plain") })
 
 	if depth < 2 {
 		return pool
